@@ -260,6 +260,9 @@ def run(ctx):
     ctx.rule("R08.6", "no member of the formatter / exception machinery is declared noexcept and reaches a raise (an arity error has to be catchable whichever way the text is obtained)")
     from .common import rule_noexcept
     rule_noexcept(ctx, "R08.6", lambda f: f.file.endswith(("format/format.hpp", "except/exception.hpp", "except/raise.hpp")), "an arity mismatch has to raise", minimum=8)
+    ctx.rule("R08.7", "no catch handler in the formatter / exception machinery lets an exception vanish: however the text is obtained (str(), conversion, operator<<, as an argument of raise) a wrong argument count reaches the caller")
+    from .common import rule_handlers
+    rule_handlers(ctx, "R08.7", lambda f: f.file.endswith(("format/format.hpp", "except/exception.hpp", "except/raise.hpp")), ("nitro::except::exception",), "an arity mismatch has to raise", minimum=8)
     ctx.assume("the output equation for all format strings (nested / lone braces) depends on std::regex_iterator's match semantics: not decided")
 
 
